@@ -202,7 +202,12 @@ def run_k3(ctx, p):
         q = rng.uniform(-2.5 * lod, 2.5 * lod, size=g)
         if np.linalg.norm(q) > R * 1.001:
             pts.append(q)
-    pts = np.array(pts)
+    # plus the places where the obstacle geometry changes character (rings hugging the obstacle, both shadow boundaries)
+    from .c13 import k3_feature_points
+    w = rng.normal(size=g)
+    w = w - np.dot(w, xd) * xd / lod ** 2
+    w = w / np.linalg.norm(w)
+    pts = np.vstack([np.array(pts), k3_feature_points(xd, R, w)])
     T = T_of(ctx, s, pts)
     Q = rand_orth(rng, g)
     s2 = ctx.make(Kenamond3, geometry=g, R=R, D=D, x_d=tuple(float(v) for v in Q @ xd), t_d=p["t_d"])
